@@ -240,6 +240,57 @@ def run_agent_api(params, known):
                 violations=out_v, known=kn, samples=[])
 
 
+def run_inbound_lengths(params, known):
+    '''Argument values that reach a signal: the peer announces a total transfer length (and sends
+    segment data) at the integer boundaries; every signal of the inbound transfer must still fit
+    its signature, the announced-finished bundle must be listed and pop as sent.'''
+    from ..peer_world import PeerWorld, PATH, IFACE
+    from ..oracle import tcpclv4 as T
+    from ..world import Violation
+    violations = []
+    count = 0
+    keys = set()
+    for role in ('passive', 'active'):
+        for total in (None, 0, 8, 255, 65536, 2 ** 31 - 1, 2 ** 31, 5 * 10 ** 9, 2 ** 63, 2 ** 64 - 1):
+            for tid in (0, 1, 2 ** 31, 2 ** 32, 2 ** 64 - 1):
+                count += 1
+                case = dict(role=role, announced_total_length=total, transfer_id=tid)
+                w = PeerWorld(dict(role=role, seg_mru=64, tx_init=64))
+                w.peer_write(T.enc_contact(0) + T.enc_sess_init(0, 64, 2 ** 64 - 1, b'dtn://peer/'))
+                w.quiesce()
+                ext = [T.ext_total_length(total)] if total is not None else []
+                w.peer_write(T.enc_segment(2, tid, b'abcd', ext))
+                w.quiesce()
+                w.peer_write(T.enc_segment(1, tid, b'efgh'))
+                w.quiesce()
+                found = None
+                bad = [sg for sg in w.signals if sg[0] == 'MARSHAL-ERROR']
+                if bad:
+                    found = ('signal-does-not-fit-signature', repr(bad[0]))
+                elif w.escaped:
+                    found = ('exception-escaped-callback', '%s: %s' % (w.escaped[-1][0], w.escaped[-1][2]))
+                else:
+                    started = [sg for sg in w.signals if sg[0] == 'recv_bundle_started']
+                    fin = [sg for sg in w.signals if sg[0] == 'recv_bundle_finished']
+                    if len(started) != 1:
+                        found = ('inbound-transfer-not-announced-started-once', repr(started))
+                    elif total in (None, 8) and (len(fin) != 1 or fin[0][3] != 'success'):
+                        found = ('inbound-transfer-not-finished', repr(fin))
+                    elif fin and fin[0][3] == 'success':
+                        q = w.bus_call(w.proc, PATH, 'recv_bundle_get_queue', iface=IFACE)
+                        res = w.bus_call(w.proc, PATH, 'recv_bundle_pop_data', fin[0][1], iface=IFACE)
+                        if q[0] != 'ok' or [str(x) for x in q[1]] != [str(fin[0][1])]:
+                            found = ('receive-queue-differs', repr(q))
+                        elif res[0] != 'ok' or bytes(res[1]) != b'abcdefgh':
+                            found = ('pop-returns-other-data', repr(res))
+                keys.add('%s/%r/%r' % (role, total, tid))
+                if found and len(violations) < 4:
+                    v = Violation(PROP, 'inbound-lengths', found[0], dict(), '%r: %s' % (case, found[1])).as_dict()
+                    v['case'] = case
+                    violations.append(v)
+    return dict(name=params['name'], evaluations=count, nontrivial_keys=sorted(keys), violations=violations, known=[], samples=[])
+
+
 def run_agent_receive(params, known):
     '''Several contacts of one agent receive at the same time (every peer numbers its transfers
     from 1).  Nothing is popped until the run is over; then every contact must list exactly the
@@ -350,6 +401,7 @@ def scenarios(tier):
             out.append(dict(name=nm, kind='enum', runner='run_refusals',
                             params=dict(name=nm, role=role, bundles=bundles, depth=depth), weight=15))
     out.append(dict(name='agent-receive', kind='enum', runner='run_agent_receive', params=dict(name='agent-receive'), weight=15))
+    out.append(dict(name='inbound-lengths', kind='enum', runner='run_inbound_lengths', params=dict(name='inbound-lengths'), weight=5))
     adepth = 3
     aparts = 4 if tier == 'quick' else 8
     for part in range(aparts):
@@ -374,6 +426,7 @@ ASSUMPTIONS = [
     'D-Bus marshalling judged by a rule table re-stated from probes of real dbus-python 1.3.2 (self-test in setup)',
     'method calls are dispatched between event-loop iterations; queries are evaluated in every explored state',
     'workloads of at most two bundles per direction',
+    'inbound transfers whose announced total length and transfer id take the integer boundary values up to 2**64-1 (argument values reaching the started / finished signals)',
     'several contacts of one agent receiving at once (1-3 contacts, 1-2 bundles per peer, rotation-fair schedules): per-contact queue listing and pops',
     'agent object (tcpcl.agent.Agent): every sequence of up to 3 (thorough 4) calls from a menu of ten (listen, connect, peer connecting, listen_stop, get_connections, shutdown, stop and their failing variants), run to quiescence after each',
     'scripted-peer part: every sequence of up to 3 (thorough 4) reactions from {acknowledge next segment, refuse transfer 1, 2 or an unknown one, repeat the last acknowledgement} against one, two-segment and two queued bundles, endpoint active and passive',
